@@ -222,10 +222,16 @@ def plan_C11(seed, run, engine, tier="quick"):
             params["fit_intercept"] = not args["fit_intercept"]
         ops.append(dict(op="set_params", id="e0", params=params))
         ops.append(dict(op="fit", id="e0", data=0, container=cont, labels=ops[1]["labels"]))
-    elif r < 0.6 and cls in ("Lasso", "WeightedLasso", "ElasticNet", "MCPRegression", "MultiTaskLasso"):
+    elif (r < 0.6 and cls in ("Lasso", "WeightedLasso", "ElasticNet", "MCPRegression", "MultiTaskLasso")) \
+            or (cls == "SqrtLasso" and r < 0.75):
         amax = args["alpha"]
         fr = [choice(rng, [3.0, 1.0, 0.5, 0.2, 0.05]) for _ in range(int(rng.integers(1, 5)))]
-        ops.append(dict(op="path", id="e0", data=0, container=choice(rng, ["F", "csc"]),
+        if cls == "SqrtLasso":
+            # distinct strengths in any order (the sweep itself runs from the largest down), kept
+            # away from the small-residual regime
+            fr = list(rng.permutation([1.5, 1.0, 0.7, 0.5, 0.35])[:int(rng.integers(1, 6))])
+        ops.append(dict(op="path", id="e0", data=0,
+                        container=choice(rng, ["F", "csc"]) if cls != "SqrtLasso" else "F",
                         alphas=[float(G.sig3(amax * f, 6)) for f in fr]))
     return _mk("C11", seed, run, engine, [ds], ops, rng)
 
@@ -404,6 +410,35 @@ def make_aux_plan(check, seed, run, engine, tier="quick"):
             if False else args["knobs"]["tol"]
         ops = [dict(op="new", id="e0", cls="IterativeReweightedL1", args=args),
                dict(op="fit", id="e0", data=0, container="F", judge=True)]
+        return _mk(check, seed, run, engine, [ds], ops, rng)
+    if check == "C16":
+        # the critical strength through the estimators, with what an earlier fit leaves on a
+        # warm_start object: fit at / above alpha_max, then refits just above and below it
+        cls = choice(rng, ["Lasso", "ElasticNet", "WeightedLasso", "GroupLasso", "MultiTaskLasso",
+                           "SparseLogisticRegression"])
+        kind = E.EST_KIND[cls]
+        ds = _dataset(rng, kind, T=int(rng.integers(2, 4)) if kind == "multi" else None)
+        args = gen_estimator(rng, cls, ds, True, frac=1.0)
+        if cls == "WeightedLasso" and args.get("weights") is not None:
+            args["weights"] = [w_ if w_ > 0 else 0.5 for w_ in args["weights"]]
+        if "positive" in args:
+            args["positive"] = False
+        if cls == "ElasticNet":
+            args["l1_ratio"] = float(choice(rng, [0.3, 0.7, 1.0]))
+        args["warm_start"] = bool(rng.random() < 0.7)
+        args["fit_intercept"] = bool(rng.random() < 0.8)
+        if "ws_strategy" in args:
+            args["ws_strategy"] = "subdiff"
+        _, amax = _alpha_for(rng, cls, args, ds, 1.0)
+        args["alpha"] = float(amax * choice(rng, [2.0, 1.05, 1.001]))
+        args["tol"] = float(G.sig3(amax * 10.0 ** (-int(rng.integers(5, 9))), 3))
+        labels = _labels(rng, ds["kind"])
+        ops = [dict(op="new", id="e0", cls=cls, args=args),
+               dict(op="fit", id="e0", data=0, container=choice(rng, ["F", "csc"]), labels=labels, optimum=False)]
+        for f_ in rng.permutation([1.05, 2.0, 0.7])[:int(rng.integers(1, 4))]:
+            ops.append(dict(op="set_params", id="e0", params=dict(alpha=float(amax * f_))))
+            ops.append(dict(op="fit", id="e0", data=0, container=ops[1]["container"], labels=labels,
+                            optimum=False))
         return _mk(check, seed, run, engine, [ds], ops, rng)
     if check == "C04":
         cls = choice(rng, ["Lasso", "WeightedLasso", "ElasticNet", "MCPRegression", "GroupLasso", "LinearSVC"])
